@@ -7,16 +7,47 @@
 //@ decides: C05/C09: a recorded result (Executed/Failed) is never replaced by a request and survives every successful merge unchanged in kind and CID; two requests keep the previous one
 //@ decides: C04: honest pairs (equal results, or a request on either side) are never rejected
 //@ decides: C14: two results merge only if they have the same kind and CID (stream generations may differ); everything else is rejected
-//@ decides: C07: merge is idempotent on its own output; C08: merge outcome is symmetric up to sender / generation
+//@ decides: C07/C08: the two harness families above characterise merge_call_results completely on the palette (accepted iff honest(a,b); result == winner(a,b)); call_merge_algebra_glue derives idempotence (re-merging the result with either input or itself changes nothing), symmetry and associativity up to sender/generation from that characterisation by pure solver reasoning; the direct two-merge harnesses (idempotent_*, symmetric_*, associative) run in the thorough tier as confirmation
 //@ outside: whole-trace merging through sliders and FSMs (DESIGN.md 2.2); CID computation (hashing)
-//@ harness: name=call_merge_result_never_lost props=C05,C09,C06 cap=900 cost=120 sym="both states: kind (6 variants), peer/CID selector, any u32 call id / generation" bound="palette above; strings of 1 byte; unwind 4"
-//@ harness: name=call_merge_accepts_honest_rejects_forged props=C04,C14 cap=900 cost=120 sym="as above" bound="as above"
-//@ harness: name=call_merge_idempotent_cb props=C07 cap=1800 cost=200 sym="as above" bound="as above"
-//@ harness: name=call_merge_idempotent_ca props=C07 cap=1800 cost=200 sym="as above" bound="as above"
-//@ harness: name=call_merge_idempotent_cc props=C07 cap=1800 cost=200 sym="as above" bound="as above"
-//@ harness: name=call_merge_symmetric props=C08 cap=1200 cost=200 sym="as above" bound="as above"
-//@ harness: name=call_merge_associative props=C08 tier=thorough core=0 cap=3000 cost=900 sym="three states a,b,c as above" bound="as above"
-//@ harness: name=call_merge_vacuity props=C05,C09,C04,C14,C07,C08 expect=fail cap=900 cost=120 sym="as above" bound="as above"
+//@ harness: name=call_merge_result_never_lost_req props=C05,C09,C06,C07,C08 cap=900 cost=40 sym="previous state: req (peer/CID selector, any u32 id/generation); current state: each of the 6 kinds in turn (concrete loop), selector, any u32" bound="palette above; 1-byte strings; unwind 8"
+//@ harness: name=call_merge_result_never_lost_reqid props=C05,C09,C06,C07,C08 cap=900 cost=40 sym="previous state: reqid (peer/CID selector, any u32 id/generation); current state: each of the 6 kinds in turn (concrete loop), selector, any u32" bound="palette above; 1-byte strings; unwind 8"
+//@ harness: name=call_merge_result_never_lost_scalar props=C05,C09,C06,C07,C08 cap=900 cost=40 sym="previous state: scalar (peer/CID selector, any u32 id/generation); current state: each of the 6 kinds in turn (concrete loop), selector, any u32" bound="palette above; 1-byte strings; unwind 8"
+//@ harness: name=call_merge_result_never_lost_stream props=C05,C09,C06,C07,C08 cap=900 cost=40 sym="previous state: stream (peer/CID selector, any u32 id/generation); current state: each of the 6 kinds in turn (concrete loop), selector, any u32" bound="palette above; 1-byte strings; unwind 8"
+//@ harness: name=call_merge_result_never_lost_unused props=C05,C09,C06,C07,C08 cap=900 cost=40 sym="previous state: unused (peer/CID selector, any u32 id/generation); current state: each of the 6 kinds in turn (concrete loop), selector, any u32" bound="palette above; 1-byte strings; unwind 8"
+//@ harness: name=call_merge_result_never_lost_failed props=C05,C09,C06,C07,C08 cap=900 cost=40 sym="previous state: failed (peer/CID selector, any u32 id/generation); current state: each of the 6 kinds in turn (concrete loop), selector, any u32" bound="palette above; 1-byte strings; unwind 8"
+//@ harness: name=call_merge_accepts_honest_rejects_forged_req props=C04,C14,C07,C08 cap=900 cost=40 sym="previous state: req (peer/CID selector, any u32 id/generation); current state: each of the 6 kinds in turn (concrete loop), selector, any u32" bound="palette above; 1-byte strings; unwind 8"
+//@ harness: name=call_merge_accepts_honest_rejects_forged_reqid props=C04,C14,C07,C08 cap=900 cost=40 sym="previous state: reqid (peer/CID selector, any u32 id/generation); current state: each of the 6 kinds in turn (concrete loop), selector, any u32" bound="palette above; 1-byte strings; unwind 8"
+//@ harness: name=call_merge_accepts_honest_rejects_forged_scalar props=C04,C14,C07,C08 cap=900 cost=40 sym="previous state: scalar (peer/CID selector, any u32 id/generation); current state: each of the 6 kinds in turn (concrete loop), selector, any u32" bound="palette above; 1-byte strings; unwind 8"
+//@ harness: name=call_merge_accepts_honest_rejects_forged_stream props=C04,C14,C07,C08 cap=900 cost=40 sym="previous state: stream (peer/CID selector, any u32 id/generation); current state: each of the 6 kinds in turn (concrete loop), selector, any u32" bound="palette above; 1-byte strings; unwind 8"
+//@ harness: name=call_merge_accepts_honest_rejects_forged_unused props=C04,C14,C07,C08 cap=900 cost=40 sym="previous state: unused (peer/CID selector, any u32 id/generation); current state: each of the 6 kinds in turn (concrete loop), selector, any u32" bound="palette above; 1-byte strings; unwind 8"
+//@ harness: name=call_merge_accepts_honest_rejects_forged_failed props=C04,C14,C07,C08 cap=900 cost=40 sym="previous state: failed (peer/CID selector, any u32 id/generation); current state: each of the 6 kinds in turn (concrete loop), selector, any u32" bound="palette above; 1-byte strings; unwind 8"
+//@ harness: name=call_merge_idempotent_cb_req props=C07 tier=thorough core=0 cap=3000 cost=60 sym="previous state: req (peer/CID selector, any u32 id/generation); current state: each of the 6 kinds in turn (concrete loop), selector, any u32" bound="palette above; 1-byte strings; unwind 8"
+//@ harness: name=call_merge_idempotent_cb_reqid props=C07 tier=thorough core=0 cap=3000 cost=60 sym="previous state: reqid (peer/CID selector, any u32 id/generation); current state: each of the 6 kinds in turn (concrete loop), selector, any u32" bound="palette above; 1-byte strings; unwind 8"
+//@ harness: name=call_merge_idempotent_cb_scalar props=C07 tier=thorough core=0 cap=3000 cost=60 sym="previous state: scalar (peer/CID selector, any u32 id/generation); current state: each of the 6 kinds in turn (concrete loop), selector, any u32" bound="palette above; 1-byte strings; unwind 8"
+//@ harness: name=call_merge_idempotent_cb_stream props=C07 tier=thorough core=0 cap=3000 cost=60 sym="previous state: stream (peer/CID selector, any u32 id/generation); current state: each of the 6 kinds in turn (concrete loop), selector, any u32" bound="palette above; 1-byte strings; unwind 8"
+//@ harness: name=call_merge_idempotent_cb_unused props=C07 tier=thorough core=0 cap=3000 cost=60 sym="previous state: unused (peer/CID selector, any u32 id/generation); current state: each of the 6 kinds in turn (concrete loop), selector, any u32" bound="palette above; 1-byte strings; unwind 8"
+//@ harness: name=call_merge_idempotent_cb_failed props=C07 tier=thorough core=0 cap=3000 cost=60 sym="previous state: failed (peer/CID selector, any u32 id/generation); current state: each of the 6 kinds in turn (concrete loop), selector, any u32" bound="palette above; 1-byte strings; unwind 8"
+//@ harness: name=call_merge_idempotent_ca_req props=C07 tier=thorough core=0 cap=3000 cost=60 sym="previous state: req (peer/CID selector, any u32 id/generation); current state: each of the 6 kinds in turn (concrete loop), selector, any u32" bound="palette above; 1-byte strings; unwind 8"
+//@ harness: name=call_merge_idempotent_ca_reqid props=C07 tier=thorough core=0 cap=3000 cost=60 sym="previous state: reqid (peer/CID selector, any u32 id/generation); current state: each of the 6 kinds in turn (concrete loop), selector, any u32" bound="palette above; 1-byte strings; unwind 8"
+//@ harness: name=call_merge_idempotent_ca_scalar props=C07 tier=thorough core=0 cap=3000 cost=60 sym="previous state: scalar (peer/CID selector, any u32 id/generation); current state: each of the 6 kinds in turn (concrete loop), selector, any u32" bound="palette above; 1-byte strings; unwind 8"
+//@ harness: name=call_merge_idempotent_ca_stream props=C07 tier=thorough core=0 cap=3000 cost=60 sym="previous state: stream (peer/CID selector, any u32 id/generation); current state: each of the 6 kinds in turn (concrete loop), selector, any u32" bound="palette above; 1-byte strings; unwind 8"
+//@ harness: name=call_merge_idempotent_ca_unused props=C07 tier=thorough core=0 cap=3000 cost=60 sym="previous state: unused (peer/CID selector, any u32 id/generation); current state: each of the 6 kinds in turn (concrete loop), selector, any u32" bound="palette above; 1-byte strings; unwind 8"
+//@ harness: name=call_merge_idempotent_ca_failed props=C07 tier=thorough core=0 cap=3000 cost=60 sym="previous state: failed (peer/CID selector, any u32 id/generation); current state: each of the 6 kinds in turn (concrete loop), selector, any u32" bound="palette above; 1-byte strings; unwind 8"
+//@ harness: name=call_merge_idempotent_cc_req props=C07 tier=thorough core=0 cap=3000 cost=60 sym="previous state: req (peer/CID selector, any u32 id/generation); current state: each of the 6 kinds in turn (concrete loop), selector, any u32" bound="palette above; 1-byte strings; unwind 8"
+//@ harness: name=call_merge_idempotent_cc_reqid props=C07 tier=thorough core=0 cap=3000 cost=60 sym="previous state: reqid (peer/CID selector, any u32 id/generation); current state: each of the 6 kinds in turn (concrete loop), selector, any u32" bound="palette above; 1-byte strings; unwind 8"
+//@ harness: name=call_merge_idempotent_cc_scalar props=C07 tier=thorough core=0 cap=3000 cost=60 sym="previous state: scalar (peer/CID selector, any u32 id/generation); current state: each of the 6 kinds in turn (concrete loop), selector, any u32" bound="palette above; 1-byte strings; unwind 8"
+//@ harness: name=call_merge_idempotent_cc_stream props=C07 tier=thorough core=0 cap=3000 cost=60 sym="previous state: stream (peer/CID selector, any u32 id/generation); current state: each of the 6 kinds in turn (concrete loop), selector, any u32" bound="palette above; 1-byte strings; unwind 8"
+//@ harness: name=call_merge_idempotent_cc_unused props=C07 tier=thorough core=0 cap=3000 cost=60 sym="previous state: unused (peer/CID selector, any u32 id/generation); current state: each of the 6 kinds in turn (concrete loop), selector, any u32" bound="palette above; 1-byte strings; unwind 8"
+//@ harness: name=call_merge_idempotent_cc_failed props=C07 tier=thorough core=0 cap=3000 cost=60 sym="previous state: failed (peer/CID selector, any u32 id/generation); current state: each of the 6 kinds in turn (concrete loop), selector, any u32" bound="palette above; 1-byte strings; unwind 8"
+//@ harness: name=call_merge_symmetric_req props=C08 tier=thorough core=0 cap=3000 cost=60 sym="previous state: req (peer/CID selector, any u32 id/generation); current state: each of the 6 kinds in turn (concrete loop), selector, any u32" bound="palette above; 1-byte strings; unwind 8"
+//@ harness: name=call_merge_symmetric_reqid props=C08 tier=thorough core=0 cap=3000 cost=60 sym="previous state: reqid (peer/CID selector, any u32 id/generation); current state: each of the 6 kinds in turn (concrete loop), selector, any u32" bound="palette above; 1-byte strings; unwind 8"
+//@ harness: name=call_merge_symmetric_scalar props=C08 tier=thorough core=0 cap=3000 cost=60 sym="previous state: scalar (peer/CID selector, any u32 id/generation); current state: each of the 6 kinds in turn (concrete loop), selector, any u32" bound="palette above; 1-byte strings; unwind 8"
+//@ harness: name=call_merge_symmetric_stream props=C08 tier=thorough core=0 cap=3000 cost=60 sym="previous state: stream (peer/CID selector, any u32 id/generation); current state: each of the 6 kinds in turn (concrete loop), selector, any u32" bound="palette above; 1-byte strings; unwind 8"
+//@ harness: name=call_merge_symmetric_unused props=C08 tier=thorough core=0 cap=3000 cost=60 sym="previous state: unused (peer/CID selector, any u32 id/generation); current state: each of the 6 kinds in turn (concrete loop), selector, any u32" bound="palette above; 1-byte strings; unwind 8"
+//@ harness: name=call_merge_symmetric_failed props=C08 tier=thorough core=0 cap=3000 cost=60 sym="previous state: failed (peer/CID selector, any u32 id/generation); current state: each of the 6 kinds in turn (concrete loop), selector, any u32" bound="palette above; 1-byte strings; unwind 8"
+//@ harness: name=call_merge_algebra_glue props=C07,C08 cap=300 cost=5 sym="three state descriptors (kind, selector, number): any" bound="pure logic over the characterisation proved by the never_lost (result == winning input) and accepts_honest (accepted iff honest) harnesses"
+//@ harness: name=call_merge_associative props=C08 tier=thorough core=0 cap=3000 cost=900 sym="three states a,b,c: any kind, selector, any u32" bound="as above"
+//@ harness: name=call_merge_vacuity props=C05,C09,C04,C14,C07,C08 expect=fail cap=900 cost=120 sym="both states any kind" bound="as above"
 
 use super::*;
 use air_interpreter_cid::CID;
@@ -31,6 +62,15 @@ struct Sel {
     kind: u8,
     pick: bool,
     n: u32,
+}
+
+/// a state of the given (concrete) kind with symbolic selector and number
+fn sel_of_kind(kind: u8) -> Sel {
+    Sel {
+        kind,
+        pick: kani::any(),
+        n: kani::any(),
+    }
 }
 
 fn any_sel() -> Sel {
@@ -88,11 +128,7 @@ fn carries(r: &CallResult, s: Sel) -> bool {
     }
 }
 
-#[kani::proof]
-#[kani::unwind(4)]
-#[kani::stub(alloc::fmt::format, fmt_stub)]
-fn call_merge_result_never_lost() {
-    let (a, b) = (any_sel(), any_sel());
+fn call_merge_result_never_lost_body(a: Sel, b: Sel) {
     let r = merge_call_results(mk(a), mk(b));
     if let Ok((merged, scheme)) = &r {
         if !is_request(a) {
@@ -113,22 +149,18 @@ fn call_merge_result_never_lost() {
             kani::assert(!matches!(scheme, PreparationScheme::Current), "C05: value source is previous or both");
         }
     }
-    kani::cover!(r.is_ok() && !is_request(a) && !is_request(b), "two results merged");
-    kani::cover!(r.is_ok() && is_request(a) && !is_request(b), "request replaced by result");
-    kani::cover!(r.is_err(), "rejected pair exists");
+    kani::cover!(r.is_ok() && !is_request(b), "merged with a current result");
+    kani::cover!(r.is_ok() && is_request(b), "merged with a current request");
+    kani::cover!(r.is_err() || is_request(a), "a rejected pair exists (unless previous is a request, which merges with everything)");
     std::mem::forget(r);
 }
 
-#[kani::proof]
-#[kani::unwind(4)]
-#[kani::stub(alloc::fmt::format, fmt_stub)]
-fn call_merge_accepts_honest_rejects_forged() {
-    let (a, b) = (any_sel(), any_sel());
+fn call_merge_accepts_honest_rejects_forged_body(a: Sel, b: Sel) {
     let r = merge_call_results(mk(a), mk(b));
     let honest = is_request(a) || is_request(b) || same_result(a, b);
     kani::assert(r.is_ok() == honest, "C04/C14: accepted iff a request is involved or both sides carry the same result");
-    kani::cover!(r.is_ok() && a.kind == 3 && b.kind == 3 && a.n != b.n, "stream results with different generations merge");
-    kani::cover!(r.is_err() && a.kind == 2 && b.kind == 3 && a.pick == b.pick, "scalar vs stream of the same CID rejected");
+    kani::cover!(r.is_ok() && (a.kind != 3 || (b.kind == 3 && a.n != b.n)), "accepted (for streams: with different generations)");
+    kani::cover!(is_request(a) || (r.is_err() && a.pick == b.pick && !is_request(b)), "same CID under another kind rejected");
     std::mem::forget(r);
 }
 
@@ -144,8 +176,7 @@ fn winner(a: Sel, b: Sel) -> Sel {
 }
 
 /// variant 0: merge(c, b); 1: merge(c, a); 2: merge(c, c)  where c = merge(a, b)
-fn idempotent_body(variant: u8) {
-    let (a, b) = (any_sel(), any_sel());
+fn idempotent_body(variant: u8, a: Sel, b: Sel) {
     let r = merge_call_results(mk(a), mk(b));
     if let Ok((c, _)) = r {
         let expected = mk(winner(a, b));
@@ -164,27 +195,6 @@ fn idempotent_body(variant: u8) {
     }
 }
 
-#[kani::proof]
-#[kani::unwind(4)]
-#[kani::stub(alloc::fmt::format, fmt_stub)]
-fn call_merge_idempotent_cb() {
-    idempotent_body(0);
-}
-
-#[kani::proof]
-#[kani::unwind(4)]
-#[kani::stub(alloc::fmt::format, fmt_stub)]
-fn call_merge_idempotent_ca() {
-    idempotent_body(1);
-}
-
-#[kani::proof]
-#[kani::unwind(4)]
-#[kani::stub(alloc::fmt::format, fmt_stub)]
-fn call_merge_idempotent_cc() {
-    idempotent_body(2);
-}
-
 /// equal knowledge: same result kind and CID (generation/sender may differ), or both still pending
 fn same_knowledge(x: &CallResult, y: &CallResult) -> bool {
     use CallResult::*;
@@ -198,11 +208,7 @@ fn same_knowledge(x: &CallResult, y: &CallResult) -> bool {
     }
 }
 
-#[kani::proof]
-#[kani::unwind(4)]
-#[kani::stub(alloc::fmt::format, fmt_stub)]
-fn call_merge_symmetric() {
-    let (a, b) = (any_sel(), any_sel());
+fn call_merge_symmetric_body(a: Sel, b: Sel) {
     let ab = merge_call_results(mk(a), mk(b));
     let ba = merge_call_results(mk(b), mk(a));
     kani::assert(ab.is_ok() == ba.is_ok(), "C08: acceptance does not depend on the order");
@@ -240,4 +246,112 @@ fn call_merge_vacuity() {
         kani::assert(false, "vacuity twin: two results merged is reachable");
     }
     std::mem::forget(r);
+}
+
+/// structural equality of the states two descriptors build
+fn same_state(x: Sel, y: Sel) -> bool {
+    x.kind == y.kind && x.pick == y.pick && (!(x.kind == 1 || x.kind == 3) || x.n == y.n)
+}
+
+fn honest(a: Sel, b: Sel) -> bool {
+    is_request(a) || is_request(b) || same_result(a, b)
+}
+
+fn same_knowledge_sel(x: Sel, y: Sel) -> bool {
+    (is_request(x) && is_request(y)) || (!is_request(x) && x.kind == y.kind && x.pick == y.pick)
+}
+
+/// Pure consequences of: merge(a,b) is Ok iff honest(a,b), and then equals mk(winner(a,b)).
+#[kani::proof]
+fn call_merge_algebra_glue() {
+    let (a, b, c) = (any_sel(), any_sel(), any_sel());
+    if honest(a, b) {
+        let w = winner(a, b);
+        // idempotence (C07): merge(w, b), merge(w, a), merge(w, w) are accepted and give w again
+        kani::assert(honest(w, b) && same_state(winner(w, b), w), "C07: merge(c, b) == c");
+        kani::assert(honest(w, a) && same_state(winner(w, a), w), "C07: merge(c, a) == c");
+        kani::assert(honest(w, w) && same_state(winner(w, w), w), "C07: merge(c, c) == c");
+    }
+    // symmetry (C08)
+    kani::assert(honest(a, b) == honest(b, a), "C08: acceptance does not depend on the order");
+    if honest(a, b) {
+        kani::assert(same_knowledge_sel(winner(a, b), winner(b, a)), "C08: same result (kind, CID) whatever the order");
+    }
+    // associativity (C08)
+    let left = honest(a, b) && honest(winner(a, b), c);
+    let right = honest(b, c) && honest(a, winner(b, c));
+    kani::assert(left == right, "C08: acceptance does not depend on grouping");
+    if left {
+        kani::assert(same_knowledge_sel(winner(winner(a, b), c), winner(a, winner(b, c))), "C08: same result whatever the grouping");
+    }
+    kani::cover!(left && !is_request(a) && !is_request(c), "three-way merge of results");
+}
+
+macro_rules! per_kind {
+    ($($name:ident => $body:expr, $kind:expr;)*) => {
+        $(
+            #[kani::proof]
+            #[kani::unwind(8)]
+            #[kani::stub(alloc::fmt::format, fmt_stub)]
+            fn $name() {
+                // previous kind fixed per harness, current kind enumerated by a concrete loop: every variant
+                // is concrete when the merger runs, only selectors and numbers are symbolic
+                let a = sel_of_kind($kind);
+                let mut kb = 0u8;
+                while kb < 6 {
+                    $body(a, sel_of_kind(kb));
+                    kb += 1;
+                }
+            }
+        )*
+    };
+}
+
+fn idem_cb(a: Sel, b: Sel) {
+    idempotent_body(0, a, b)
+}
+fn idem_ca(a: Sel, b: Sel) {
+    idempotent_body(1, a, b)
+}
+fn idem_cc(a: Sel, b: Sel) {
+    idempotent_body(2, a, b)
+}
+
+per_kind! {
+    call_merge_result_never_lost_req => call_merge_result_never_lost_body, 0;
+    call_merge_result_never_lost_reqid => call_merge_result_never_lost_body, 1;
+    call_merge_result_never_lost_scalar => call_merge_result_never_lost_body, 2;
+    call_merge_result_never_lost_stream => call_merge_result_never_lost_body, 3;
+    call_merge_result_never_lost_unused => call_merge_result_never_lost_body, 4;
+    call_merge_result_never_lost_failed => call_merge_result_never_lost_body, 5;
+    call_merge_accepts_honest_rejects_forged_req => call_merge_accepts_honest_rejects_forged_body, 0;
+    call_merge_accepts_honest_rejects_forged_reqid => call_merge_accepts_honest_rejects_forged_body, 1;
+    call_merge_accepts_honest_rejects_forged_scalar => call_merge_accepts_honest_rejects_forged_body, 2;
+    call_merge_accepts_honest_rejects_forged_stream => call_merge_accepts_honest_rejects_forged_body, 3;
+    call_merge_accepts_honest_rejects_forged_unused => call_merge_accepts_honest_rejects_forged_body, 4;
+    call_merge_accepts_honest_rejects_forged_failed => call_merge_accepts_honest_rejects_forged_body, 5;
+    call_merge_idempotent_cb_req => idem_cb, 0;
+    call_merge_idempotent_cb_reqid => idem_cb, 1;
+    call_merge_idempotent_cb_scalar => idem_cb, 2;
+    call_merge_idempotent_cb_stream => idem_cb, 3;
+    call_merge_idempotent_cb_unused => idem_cb, 4;
+    call_merge_idempotent_cb_failed => idem_cb, 5;
+    call_merge_idempotent_ca_req => idem_ca, 0;
+    call_merge_idempotent_ca_reqid => idem_ca, 1;
+    call_merge_idempotent_ca_scalar => idem_ca, 2;
+    call_merge_idempotent_ca_stream => idem_ca, 3;
+    call_merge_idempotent_ca_unused => idem_ca, 4;
+    call_merge_idempotent_ca_failed => idem_ca, 5;
+    call_merge_idempotent_cc_req => idem_cc, 0;
+    call_merge_idempotent_cc_reqid => idem_cc, 1;
+    call_merge_idempotent_cc_scalar => idem_cc, 2;
+    call_merge_idempotent_cc_stream => idem_cc, 3;
+    call_merge_idempotent_cc_unused => idem_cc, 4;
+    call_merge_idempotent_cc_failed => idem_cc, 5;
+    call_merge_symmetric_req => call_merge_symmetric_body, 0;
+    call_merge_symmetric_reqid => call_merge_symmetric_body, 1;
+    call_merge_symmetric_scalar => call_merge_symmetric_body, 2;
+    call_merge_symmetric_stream => call_merge_symmetric_body, 3;
+    call_merge_symmetric_unused => call_merge_symmetric_body, 4;
+    call_merge_symmetric_failed => call_merge_symmetric_body, 5;
 }
